@@ -93,6 +93,13 @@ def make_font(rng, lib, color=False, dotted=False):
         desc["glyphs"].append({"name": "acutecomb", "unicodes": [0x301], "width": 0, "contours": [],
                                "anchors": [("_top", Fr(0), Fr(500))], "components": []})
         desc["lib"] = {"public.openTypeCategories": {"acutecomb": "mark"}}
+        if dotted in ("present", "present-but-not-exported"):
+            # the font has its own U+25CC glyph, which lacks the anchor the mark attaches to
+            desc["glyphs"].append({"name": "dottedcircle", "unicodes": [0x25CC], "width": Fr(600), "components": [],
+                                   "anchors": [("bottom", Fr(300), Fr(-20))] if rng.random() < 0.5 else [],
+                                   "contours": [[(Fr(100), Fr(100), "line"), (Fr(500), Fr(100), "line"), (Fr(500), Fr(500), "line"), (Fr(100), Fr(500), "line")]]})
+            if not any(n == "top" for g in desc["glyphs"] for n, *_ in g.get("anchors", [])):
+                desc["glyphs"][0].setdefault("anchors", []).append(("top", Fr(100), Fr(500)))
     font = build_font(desc, lib)
     if color:
         names = [g["name"] for g in desc["glyphs"]][:2]
@@ -139,6 +146,9 @@ def explore(ctx):
         lib = ["ufoLib2", "defcon"][(i // len(flist)) % 2]
         color = fname == "ExplodeColorLayerGlyphs"
         dotted = fname == "DottedCircle"
+        if dotted:
+            # no U+25CC glyph (the filter draws one) / the font has one / has one that is not in the glyph set being processed
+            dotted = ["absent", "present", "present-but-not-exported"][(i // len(flist)) % 3]
         desc, font = make_font(rng, lib, color, dotted)
         desc2, font2 = make_font(rng, lib, color, dotted)
         names = [g["name"] for g in desc["glyphs"]]
@@ -163,7 +173,10 @@ def explore(ctx):
         try:
             filt = cls(*args, **kw)
             src0 = snap.font_snapshot(font)
-            gset = _GlyphSet.from_layer(font, copy=True)
+            gset = _GlyphSet.from_layer(font, copy=True, skipExportGlyphs=["dottedcircle"] if dotted == "present-but-not-exported" else None)
+            if dotted:
+                ctx.klass("DottedCircle: U+25CC glyph " + dotted)
+                case["dotted_circle_glyph"] = dotted
             if inc_kind == "predicate":
                 included = {n for n in gset if len(gset[n]) > 0 or len(gset[n].components) > 1}
             before = snap.glyphset_snapshot(gset)
@@ -196,7 +209,15 @@ def explore(ctx):
             ctx.spec_failure(case, "%s changed glyphs that are neither included nor referenced by an included glyph: %r" % (fname, sorted(stray)))
         if src0 != src1:
             d = snap.diff(src0, src1)
+            # the known findings are writes to specific places: F5 the category / GDEF class of the dotted circle (font lib
+            # or feature text), F4 the colour-layer mapping in the lib and the glyphs of the NON-default colour layers.
+            # A write anywhere else (say, to a glyph of the default layer) is something else.
+            full = snap.diff(src0, src1)
+            where = {"DottedCircle": ("/lib/public.openTypeCategories", "/features"),
+                     "ExplodeColorLayerGlyphs": ("/lib/com.github.googlei18n.ufo2ft.colorLayers", "/layers/color")}.get(fname)
             sig = {"DottedCircle": F5_SIG, "ExplodeColorLayerGlyphs": F4_SIG}.get(fname)
+            if where is None or not all(x.startswith(where) for x in full):
+                sig = None
             ctx.spec_failure(dict(case, source_diff=d[:6]), "%s wrote to the source font although it was given a separate glyph set: %s" % (fname, "; ".join(d[:3])),
                              signature=sig)
         # ---- statelessness: the same object on a second font vs a fresh object
